@@ -13,8 +13,8 @@ from vlib import *
 
 KEY_MID = None      # (both dialer back-off findings were repaired in /repo: 2107908, 4a05a49 -- no known-finding keys)
 KEY_OVF = None
-KEY_WLEAK = "waitpipes-leak-on-endpoint-close"   # tcp/ipc/tls *_ep_close: pipes on waitpipes keep their creator's reference
-KEY_RACE = "pipe-start-overtaken-by-reap"        # a pipe closed during *_start_pipe is torn down before start-up finishes (UAF in stats/protocol lists)
+KEY_WLEAK = None     # waitpipes leak on endpoint close: repaired in /repo 6fda216 (tcp.c, ipc.c) -- fires unkeyed if it returns
+KEY_RACE = None      # tear-down overtaking start-up (use-after-free): repaired in /repo 91744d5
 KEY_DLEAK = "tcp-dial-leak-on-dialer-close"      # nni_tcp_dial's connection object leaked when the dialer closes mid-connect
 
 
@@ -28,7 +28,7 @@ def san_key(errtxt, finished):
     if "LeakSanitizer" in errtxt and "ERROR: AddressSanitizer" not in errtxt and finished:
         keys = set()
         for b in errtxt.split("Direct leak")[1:]:
-            if "nni_pipe_alloc_listener" in b or "nni_pipe_alloc_dialer" in b:
+            if "nni_pipe_alloc_listener" in b.split("leak of")[0] or "nni_pipe_alloc_dialer" in b.split("leak of")[0]:
                 keys.add(KEY_WLEAK)
             elif "nni_tcp_dial" in b and "nni_posix_tcp_alloc" in b:
                 keys.add(KEY_DLEAK)
@@ -201,6 +201,7 @@ def oracle(case, out):
     dmode = {}                  # dialer -> "nb" / "aio"
     lowered = set()             # dialers whose maximum was lowered (not generated by gen_script)
     armed_bound = {}            # dialer -> larger reconnect time when its timer was armed
+    idle_since = {}             # dialer -> (line, text): seen with neither pipe, timer nor connect right after a loss
     prev = None
     for i, line in enumerate(case):
         t = line.split()
@@ -273,10 +274,15 @@ def oracle(case, out):
                 if dmode.get(k) == "aio" and pd["att"] == 1 and d["u"] is not None:
                     pass        # a dial with a user aio reports the failure and does not retry
                 elif d["ph"] not in ("t", "c"):
-                    return (i, None, "dialer d%d: background dial failed with %s and neither a timer is armed nor a connect pending" % (k, t[2]))
+                    idle_since[k] = (i, "dialer d%d: background dial failed with %s and neither a timer is armed nor a connect pending" % (k, t[2]))
             if pd["pipe"].startswith("p") and d["pipe"] == "-" and d["ph"] not in ("t", "c"):
-                return (i, None, "dialer d%d lost its pipe %s and neither a timer is armed nor a connect pending" % (k, pd["pipe"]))
-            if t[0] == "advance" and pd["ph"] == "t" and int(t[1]) > max(pd["min"], pd["max"], pd["cur"]) and d["ph"] != "c":
+                idle_since[k] = (i, "dialer d%d lost its pipe %s and neither a timer is armed nor a connect pending" % (k, pd["pipe"]))
+            if k in idle_since and idle_since[k][0] < i:
+                # seen idle at the previous observation: a real-time window unless it is still idle now
+                j, txt = idle_since.pop(k)
+                if d["ph"] == "-" and d["pipe"] == "-" and d["att"] == pd["att"] and t[0] in ("poll", "advance", "conn", "accfail", "cbclose", "notify"):
+                    return (j, None, txt)
+            if t[0] == "advance" and pd["ph"] == "t" and int(t[1]) > max(armed_bound.get(k, 0), pd["min"], pd["max"], pd["cur"]) and d["ph"] != "c":
                 return (i, KEY_MID if k in lowered else None, "dialer d%d: %s ms after the timer was armed (reconnect times %d/%d) no connect was attempted" % (k, t[1], pd["min"], pd["max"]))
             if t[0] == "advance" and pd["ph"] == "t" and d["ph"] == "c" and d["att"] != pd["att"] + 1:
                 return (i, None, "dialer d%d: attempts %d -> %d over one timer expiry" % (k, pd["att"], d["att"]))
@@ -417,8 +423,23 @@ def run(tier, seed, replay=None):
     for k in os.environ.get("C14_ACCEPT", "").split(","):      # local override while a finding awaits main's decision
         if k:
             rep.known.setdefault(k, "(accepted locally through C14_ACCEPT)")
-    ok, msg = gen_consts("c14")
-    cb = coq_build("Properties_C14")
+    # Gen/Consts.v is shared with the other properties' checks, which may regenerate it from another
+    # tree at any moment: make sure the proofs were checked against the constants of THIS tree
+    def c14_lines():
+        try:
+            return [l for l in open(os.path.join(COQ, "Gen", "Consts.v")) if "C14_" in l]
+        except OSError:
+            return []
+    for attempt in range(4):
+        ok, msg = gen_consts("c14")
+        mine = c14_lines()
+        cb = coq_build("Properties_C14")
+        if c14_lines() == mine:
+            break
+    shape_bad = [re.match(r"Definition (C14_\w+)", l).group(1) for l in mine
+                 if re.match(r"Definition C14_\w+(_OK|_SHAPE|_KICKS|_REARMS|_CLOSE_ONLY) : bool := false", l)]
+    if any("C14_NEGO_MAPS_ECLOSED" in l and "false" in l for l in mine):
+        shape_bad.append("C14_NEGO_MAPS_ECLOSED")
     gate = coq_gate()
     rep.proof_cov(cb, "make -C coq Props/Properties_C14.vo && coqc Props/Properties_C14.v (Print Assumptions) ; grep gate")
     proof_ok = ok and cb["ok"] and not gate
@@ -543,13 +564,16 @@ def run(tier, seed, replay=None):
                 p = rep.replay_file(name, "# wb_pipeev %s %s (rc=%s)\n" % (k, " ".join(map(str, a)), rc) + "\n".join(out[-200:]) + "\n" + errtxt[:6000] + "\n...\n" + errtxt[-1500:])
                 key = san_key(errtxt, bool(out) and out[-1].endswith("-done"))
                 rep.violation(p, "scenario %s %s crashed / sanitizer report / hung (rc=%s): %s" % (k, a, rc, san_summary(errtxt) or errtxt[-200:]), key=key)
-                wleak = key in (KEY_WLEAK, KEY_DLEAK)      # the log is complete: still evaluate it
+                wleak = key is not None and key == KEY_DLEAK      # the log is complete: still evaluate it
                 if not wleak:
                     continue
             bad = scen_oracle(k, out)
             if bad:
                 p = rep.replay_file(name, "# wb_pipeev %s %s\n# %s\n" % (k, " ".join(map(str, a)), bad) + "\n".join(out) + "\n")
                 rep.violation(p, "C14 (%s %s): %s" % (k, a[0], bad))
+    if shape_bad and not rep.violations:
+        p = rep.replay_file("shape_changed.txt", "the source no longer has the shape the C14 models were written from:\n" + "\n".join(l for l in mine if any(s in l for s in shape_bad)))
+        rep.violation(p, "C14: code shape changed (%s): the models no longer correspond to the source; no input violating the property found" % ", ".join(shape_bad), nofail=True)
     if not proof_ok and not rep.violations:
         proof_broken_report(rep, cb, "C14 theorems do not check (%s)" % ("; ".join(gate[:3]) if gate else msg if not ok else "see log"))
     rep.cov.update({
